@@ -368,6 +368,9 @@ func injectionVerdict1(run *core.Run, c *core.Case) {
 	txt := c.DSL
 	m1, err1 := transformer.TransformDSLToProto(txt)
 	m2, ext, err2 := transformer.TransformModularDSLToProto(txt)
+	if !parsedFinite(run, c, m1, m2) {
+		return // the JSON entry point would marshal it: unbounded recursion, a fatal error of the process
+	}
 	js, err3 := transformer.TransformDSLToJSON(txt)
 	run.Eval(3)
 	name := c.Extra["injection"]
@@ -602,6 +605,9 @@ func converseCheck1(run *core.Run, s string) {
 	m, err := transformer.TransformDSLToProto(s)
 	run.Eval(1)
 	if err != nil {
+		return
+	}
+	if !parsedFinite(run, &core.Case{Kind: "dsl", DSL: s}, m) {
 		return
 	}
 	run.Count("accepted_mutants_scanned", 1)
